@@ -62,6 +62,10 @@ def describe(rec, limit=40):
 def replay_trace(data, oracle_list, *, manual=True):
     """Generic --replay: re-run the stored scenario through the stored entry verbosely."""
     p = data["payload"]
+    if "tspec" in p:
+        from .. import tconc
+
+        return tconc.replay(p)
     sc, entry = p["scenario"], p["entry"]
     recs, h, w = rig.run(sc, entry, manual=manual)
     bad = 0
